@@ -245,9 +245,13 @@ def gen_history(seed, idx, tier, only_step_faults=False):
             return k
         if k == "option":
             name = r.choice(OPTS_FOR_HISTORY)
-            if p.fmt in gen.BITMAP and r.random() < 0.5:
-                name = r.choice(["bitmap_resolution", "use_pngquant", "use_zopflipng", "pngquant_flags", "pngquant_flags"])
+            if p.fmt in gen.BITMAP and r.random() < 0.6:
+                name = r.choice(["bitmap_resolution", "use_pngquant", "use_zopflipng", "pngquant_flags", "pngquant_flags", "pngquant_flags"])
             v = r.choice(gen.OPTION_VALUES[name])
+            if name == "pngquant_flags" and r.random() < 0.5:
+                # flip between "pngquant succeeds" and "pngquant gives up (exit 99) and the wrapper falls back to its input"
+                giveup = gen.OPTION_VALUES["pngquant_flags"][-1]
+                v = gen.OPTION_VALUES["pngquant_flags"][0] if p.opts.get("pngquant_flags") == giveup else giveup
             if name == "descender" and False:
                 return None
             if name in p.opts and r.random() < 0.35:
@@ -603,7 +607,8 @@ def judge(case, results):
     causes = {"leaf-input-backdated" if (a["leaf"] and a["backdated"] and a["declared"]) else
               ("undeclared-input" if not a["declared"] else "other") for a in stale if a["edge"] not in trusted_edges}
     if trusted:
-        causes.add("failed-edge-output-trusted")
+        causes.add("failed-edge-output-trusted" if all(a.get("explained_by_log_of_last_success") for a in trusted)
+                   else "failed-edge-output-trusted-although-log-said-dirty")
     causes = sorted(causes)
     cause = causes[0] if len(causes) == 1 else ("none" if not causes else "mixed:" + "+".join(causes))
     if (final["rc"] == 0) != (ref["rc"] == 0):
